@@ -511,3 +511,27 @@ def c10_solver_stream(chk, rng, tier):
             (I, case, li, lm) = sdis[0]
             chk.violation("unproved", "correspondence: solver model and code differ with dominance enabled (%s)" % case,
                           {"instance": I.line(), "case": case, "impl": li, "model": lm})
+
+
+def nodup_tie(tier, tag):
+    """small exhaustive correspondence stream for NoDupFringe (used by the solver-level checks whose theorems rely on the fringe model):
+    returns (number of sequences, list of (ops line, impl, model, spec verdict) that disagree with the model or violate the queue specification)"""
+    pushes = [[1, s, d, v, u, 0] for s in (0, 1) for d in (0, 1) for v in (0, 1, 2) for u in (0, 1, 2)]
+    alpha = pushes + [[2]]
+    seqs = []
+    for n in (2, 3):
+        for seq in itertools.product(range(len(alpha)), repeat=n):
+            if alpha[seq[-1]] != [2]: continue
+            seqs.append([alpha[i] for i in seq] + [[2], [2]])
+    lines = []
+    for ops in seqs:
+        toks = []; t = 0
+        for o in ops:
+            if o[0] == 1: t += 1; toks += o[:5] + [t]
+            else: toks += o
+        lines.append("F 1 " + " ".join(map(str, toks)))
+    impl = run_lines("impl", "fringe", lines, tag)
+    model = run_lines("model", "fringe", lines, tag + "m")
+    verd = fringecheck(lines, impl, tag)
+    bad = [(l, a, b, v) for l, a, b, v in zip(lines, impl, model, verd) if a != b or v != "OK"]
+    return len(lines), bad
